@@ -829,8 +829,11 @@ class Dict(dict, base.Symbolic, pg_typing.CustomTyping):
     """Update Dict with the same semantic as update on standard dict."""
     updates = dict(other) if other else {}
     updates.update(kwargs)
+    # NOTE: keys are used as they are (same as the standard dict), they are not
+    # parsed as key paths: `d.update({'a.b': 1})` sets the key 'a.b'.
     self.rebind(
-        updates, raise_on_no_change=False, skip_notification=True)
+        {utils.KeyPath(k): v for k, v in updates.items()},
+        raise_on_no_change=False, skip_notification=True)
 
   def __ior__(self, other) -> 'Dict':
     """In-place union, which goes through `update`."""
